@@ -119,7 +119,7 @@ impl Prop for C14 {
         "C14"
     }
     fn rule(&self) -> String {
-        "Graph<String,()> of all 8 kinds with 0..8 distinct node names drawn from a Unicode strategy that excludes only control characters (XML specials, ]]>, entity look-alikes, leading/trailing/inner spaces, the empty string, NBSP, U+2028/9, BOM, astral and private-use code points, names of 30-60 chars) and edges whose weight is NaN (unweighted) or f64::from_bits of any non-NaN pattern (signed zero, subnormals, MAX, +-inf, 2^53+1 ...), mixed within one graph, self-loops and parallel edges per kind. Oracle: read_graphml_string(write_graphml_string(g), g.specs) is Ok with the same ordered names, directedness and edge multiset with bit-identical weights; for one case in four the file variants are used as well (same bytes as the string variant, same graph). Non-trivial = some name contains a special / non-ASCII / blank / empty form and some edge has a non-integer or extreme weight; distinct = distinct serialised case.".into()
+        "Graph<String,()> of all 8 kinds with 0..8 distinct node names drawn from a Unicode strategy that excludes only control characters (XML specials, ]]>, entity look-alikes, leading/trailing/inner spaces, the empty string, NBSP, U+2028/9, BOM, astral and private-use code points, names of 30-60 chars) and edges whose weight is NaN (unweighted) or f64::from_bits of any non-NaN pattern (signed zero, subnormals, MAX, +-inf, 2^53+1 ...), mixed within one graph, self-loops and parallel edges per kind. Oracle: read_graphml_string(write_graphml_string(g), g.specs) is Ok with the same ordered names, directedness and edge multiset with bit-identical weights; for one case in four the file variants are used as well (same bytes as the string variant, same graph). Non-trivial = some name contains a special / non-ASCII / blank / empty form and some edge has a non-integer or extreme weight; distinct = distinct serialised case. For the file variants the target path is absent, or already holds a longer or a shorter earlier export (one third each).".into()
     }
     fn assumptions(&self) -> Vec<String> {
         vec!["control characters (Unicode Cc) are excluded from names, as the property states".into(), "scratch files are written under /verif/work and removed".into()]
@@ -167,6 +167,19 @@ impl Prop for C14 {
             let path = dir.join(format!("c14-{}-{}.graphml", std::process::id(), FILE_COUNTER.fetch_add(1, Ordering::Relaxed)));
             let ps = path.to_string_lossy().to_string();
             out.api_calls += 2;
+            // the target may already exist (an earlier export to the same path): longer than the new
+            // document, shorter, or absent
+            match (names.len() + edges.len()) % 3 {
+                1 => {
+                    let _ = std::fs::write(&path, format!("{}{}<!-- an earlier, longer export -->\n", text, text));
+                    out.class("target_exists_longer");
+                }
+                2 => {
+                    let _ = std::fs::write(&path, &text.as_bytes()[..text.len() / 2]);
+                    out.class("target_exists_shorter");
+                }
+                _ => out.class("target_absent"),
+            }
             match guard(|| graphml::write_graphml_file(&g, &ps)) {
                 Err(p) => out.fail(format!("write_graphml_file/panic/{}", panic_class(&p)), p),
                 Ok(Err(e)) => {
